@@ -113,6 +113,7 @@ func lossTol(kind string, p, t *ref.T) float64 {
 }
 
 func runC12(c *fw.Ctx) {
+	deeperBounds(!c.Quick())
 	// one loss object used for a sequence of batches of DIFFERENT shapes (equal element counts included), long batches included
 	for _, kind := range []string{"mse", "bce", "ce"} {
 		for i := 0; i < c.Pick(400, 6000); i++ {
